@@ -580,6 +580,31 @@ func enumC14(c *oracleCfg, chk func(fam, s string, nt bool)) {
 		chk("sentence2", word()+" "+word()+"! "+word()+"?", true)
 		chk("sentence3", word()+" "+word()+": "+word()+" "+num()+".", true)
 	}
+	// long identifiers at every position: words longer than the 32-byte token window whose tail (from
+	// byte 31, 32 or 33 on) spells a keyword, after leading tokens of various lengths
+	kwTails := []string{"select", "union", "like", "or", "and", "case", "not", "from", "where", "in", "is", "null", "sleep", "exec", "having"}
+	for _, lead := range []string{"", "7", strings.Repeat("7", 20), strings.Repeat("7", 42), strings.Repeat("a", 33), strings.Repeat("a", 70), "a " + strings.Repeat("b", 40)} {
+		for _, padLen := range []int{25, 30, 31, 32, 33, 34, 40, 63, 64, 65} {
+			for i, t1 := range kwTails {
+				for j, t2 := range kwTails {
+					if (padLen < 31 || padLen > 33) && j != (i*7+3)%len(kwTails) {
+						continue // all pairs only around the window size
+					}
+					w1 := strings.Repeat("x", padLen) + t1
+					w2 := strings.Repeat("y", padLen) + t2
+					if comp[strings.ToUpper(w1)] || comp[strings.ToUpper(w2)] {
+						continue
+					}
+					parts := []string{w1, w2}
+					if lead != "" {
+						parts = []string{lead, w1, w2}
+					}
+					chk("longword", strings.Join(parts, " "), true)
+					chk("longword", strings.Join(append(parts, "1"), " "), true)
+				}
+			}
+		}
+	}
 	for _, a := range letters {
 		for _, b := range " " + letters {
 			w := strings.TrimSpace(string([]rune{a, b}))
@@ -770,6 +795,18 @@ func oracleC18(c *oracleCfg) *report {
 			other = '\''
 		}
 		exhaustive("", []byte{d, '\\', 'a', ' ', other}, bound, func(t string) { check(t, d) })
+	}
+	// runs of escapes / delimiters before a delimiter, at the lengths where a bounded counter could flip
+	for _, d := range []byte{'\'', '"', '`'} {
+		ds := string([]byte{d})
+		for _, k := range runLengths {
+			bs := strings.Repeat("\\", k)
+			dd := strings.Repeat(ds, k)
+			for _, t := range []string{bs + ds + "x" + ds + "1", "a" + bs + ds + "x" + ds, bs + ds, bs, dd + "x", dd, "a" + dd + "x" + ds,
+				bs + dd + "x" + ds, "a" + bs + dd, dd + bs + ds + "x"} {
+				check(t, d)
+			}
+		}
 	}
 	rng := rand.New(rand.NewSource(c.seed*13 + 1))
 	n := int(60000 * c.scale)
